@@ -555,9 +555,12 @@ class C13(System):
 
 
 def _check_stream_pickle(x, y, match0):
-    if type(y) is not type(x):
-        raise Violation('pickle-differs', f'unpickled a {type(y).__name__} from a {type(x).__name__}', match=dict(op='pickle', what='class', **match0))
     ox, oy = observe(x), observe(y)
+    if ox[1] != oy[1] or [p for p in ox[1] if ox[2][p]] != [p for p in oy[1] if oy[2][p]]:
+        raise Violation('pickle-differs', f'phases: original {okey(ox)} unpickled {okey(oy)}', match=dict(op='pickle', what='phases', **match0))
+    if type(y) is not type(x):
+        # only reached when the phase tuple and the occupied phases are identical (one-element phase tuple)
+        raise Violation('pickle-differs', f'unpickled a {type(y).__name__} from a {type(x).__name__}', match=dict(op='pickle', what='class', **match0))
     if okey(ox) != okey(oy):
         what = 'phases' if ox[1] != oy[1] else 'T' if ox[3] != oy[3] else 'P' if ox[4] != oy[4] else 'flows'
         raise Violation('pickle-differs', f'original {okey(ox)} unpickled {okey(oy)}', match=dict(op='pickle', what=what, **match0))
@@ -672,7 +675,7 @@ class PickleGrid(System):
         match0 = dict(kind=kind)
         if kind == 'stream_default':
             _, t, other, mode = st.names
-            match0 = dict(kind='M' if TEMPLATES[t][0] == 'M' else 'S', default=mode)
+            match0 = dict(kind=('M1' if len(TEMPLATES[t][2]) == 1 else 'M') if TEMPLATES[t][0] == 'M' else 'S', default=mode)
             settings = tmo.settings
             had = hasattr(settings, '_thermo'); saved = getattr(settings, '_thermo', None)
             own_th, other_th = x.thermo, fx.thermo(other)
@@ -709,7 +712,7 @@ class PickleGrid(System):
         if kind == 'stream':
             price, cf, ID = st.X[1]
             _, t, _, _, _, how = st.names
-            match0 = dict(kind='M' if TEMPLATES[t][0] == 'M' else 'S', how=how)
+            match0 = dict(kind=('M1' if len(TEMPLATES[t][2]) == 1 else 'M') if TEMPLATES[t][0] == 'M' else 'S', how=how)
             # what was given at construction must be what the original reports ...
             for what, want, got in (('price', price, x.price), ('characterization_factors', cf, dict(x.characterization_factors)), ('ID', ID, x.ID)):
                 if want != got:
